@@ -62,7 +62,7 @@ impl Check for C02 {
     type Case = Case;
     const ID: &'static str = "C02";
     fn runs(t: Tier) -> u64 {
-        t.pick(15_000, 1_000_000)
+        t.pick(60_000, 2_000_000)
     }
     fn generate(rng: &mut Rng, tier: Tier, idx: u64) -> Case {
         let mut wl = rng.sub("workload");
